@@ -435,6 +435,7 @@ class Net:
         self.all_transports = []
         self.next_port = 40000
         self.bind_plan = {}        # port -> list of outcomes per attempt: "ok" | errno int
+        self.blackholes = set()    # ports a connect to which is never answered
         self.bind_attempts = collections.Counter()
         self._seq = itertools.count(1)
         self._idx = itertools.count(1)
@@ -795,6 +796,10 @@ class SimLoop(base_events.BaseEventLoop):
     async def create_connection(self, protocol_factory, host=None, port=None, *, ssl=None, **kw):
         owner = self.current_owner if self.current_owner != "server" else "client"
         await tasks.sleep(0)
+        if port in self.net.blackholes:
+            # an address that swallows the SYN: the connect neither succeeds nor fails (until the operating system
+            # gives up, minutes later - beyond every horizon here)
+            await self.create_future()
         cproto = protocol_factory()
         ct = self._connect_pair(host, port, cproto, owner)
         cproto.connection_made(ct)
